@@ -76,6 +76,10 @@ class VenomCodegenContext:
     func_t: Optional[ContractFunctionT] = None
     constancy: Constancy = Constancy.Mutable
     is_ctor_context: bool = False
+    # in the constructor: the block holding the deploy epilogue. `return`
+    # statements in `__init__` must jump here (rather than stop execution),
+    # otherwise no runtime code is deployed.
+    ctor_exit_label: Optional[IRLabel] = None
 
     # Loop targets (for break/continue)
     break_target: Optional[IRLabel] = None
